@@ -281,13 +281,25 @@ def make_driver(plan, world):
                 reconnect_interval=k.get("reconnect_interval", 1),
                 reconnect_limit=k.get("reconnect_limit", None),
                 glob=bool(k.get("glob")),
-                dev_inst_map=None)
+                dev_inst_map=make_inst_map(k.get("inst_map")))
         if "exceptions_on_send" in k:
             d.exceptions_on_send = k["exceptions_on_send"]
         return d
     if drv == "luba":
-        return sermod.DriverLubaRs232("luba232:/dev/ttySIM")
-    return sermod.DriverSCIRS232("scirs232:/dev/ttySIM")
+        return sermod.DriverLubaRs232("luba232:/dev/ttySIM",
+                                      dev_inst_map=make_inst_map(k.get("inst_map")))
+    return sermod.DriverSCIRS232("scirs232:/dev/ttySIM",
+                                 dev_inst_map=make_inst_map(k.get("inst_map")))
+
+
+def make_inst_map(entries):
+    if entries is None:
+        return None
+    from dali.device.helpers import DeviceInstanceTypeMapper
+    m = DeviceInstanceTypeMapper()
+    for a, i, t in entries:
+        m.add_type(short_address=a, instance_number=i, instance_type=t)
+    return m
 
 
 def run(plan, hooks=None):
@@ -331,6 +343,7 @@ def run(plan, hooks=None):
         except Exception as e:              # noqa: BLE001
             rr.connect_error = e
             return
+        rr.t_connected = world.loop.time()
         if "connected" in hooks:
             hooks["connected"](rr)
         _schedule_traffic(rr)
@@ -345,6 +358,12 @@ def run(plan, hooks=None):
             for t in done:
                 if not t.cancelled() and t.exception() is not None:
                     raise HarnessError("caller task failed: %r" % t.exception())
+        tr = plan.get("traffic") or []
+        if tr:
+            # let the whole foreign history play out (frames, answers, reports)
+            last = rr.t_connected + (max(it["t_us"] for it in tr) + 400_000) * 1e-6
+            if last > world.loop.time():
+                await asyncio.sleep(last - world.loop.time())
         if plan.get("settle_s"):
             await asyncio.sleep(plan["settle_s"])
         if "finish" in hooks:
